@@ -92,6 +92,7 @@ class Driver:
         self.case = case
         self.mismatch = None
         self.top_model = (True, True)
+        self.carried = []
         self.stats = {"max_depth": 0, "exceptions_crossing": 0, "reentrant": 0, "progs_untracked": 0}
 
     def state(self):
@@ -164,18 +165,41 @@ class Driver:
                 self.expect(model, f"after leaving {m} scope at depth {depth}")
         return model
 
+    def check_carried(self):
+        """Inside no_autodiff: backward() on tensors whose graphs were recorded with tracking on 'does nothing'."""
+        mg = self.mg
+        for run in self.carried[-2:]:
+            tens = [(h, t) for h, t in run.env.items() if isinstance(t, mg.Tensor)]
+            snap = {h: (id(t.creator), len(t._ops), id(t.base), id(t._grad), t.data.flags.writeable, t.data.tobytes())
+                    for h, t in tens}
+            for h, t in tens[-3:] + tens[:1]:
+                t.backward()
+            for h, t in tens:
+                now = (id(t.creator), len(t._ops), id(t.base), id(t._grad), t.data.flags.writeable, t.data.tobytes())
+                if now != snap[h]:
+                    fields = ["creator", "consumers", "base", "grad", "writeable", "data"]
+                    bad = [f for f, a, b_ in zip(fields, snap[h], now) if a != b_]
+                    raise _Mis(Mismatch("untracked_backward_disturbed_graph",
+                                        f"backward() inside no_autodiff changed {bad} of a tensor (constant={t.constant}) "
+                                        f"whose graph was recorded with tracking on"))
+        if self.carried:
+            self.stats["carried_checked"] = self.stats.get("carried_checked", 0) + 1
+
     # -------------------------------------------------------------------------------- programs
     def run_prog(self, i, model):
         mg = self.mg
         prog = self.case["progs"][i]
         tracked, guard = model
         if tracked:
-            # behaviour with tracking on is the subject of C01..C14; here only: it runs, and scopes are untouched
+            # behaviour with tracking on is the subject of C01..C14; here only: it runs, and scopes are untouched.
+            # Its (live) graph is carried along: later untracked scopes must not disturb it.
             run = ir.MgRun(prog).run()
             if run.error is not None:
                 raise _Mis(Mismatch("raised", f"tracked program: {fmt_exc(run.error)}"))
+            self.carried.append(run)
             return
         self.stats["progs_untracked"] += 1
+        self.check_carried()
         ref = ir.RefRun(prog)
         run = ir.MgRun(prog)
         # leaves that carry a gradient from an earlier (tracked) life
@@ -279,6 +303,8 @@ def check_case(case, rec=None):
             labels.append("reentrant")
         if d.stats["progs_untracked"]:
             labels.append("program_run_untracked")
+        if d.stats.get("carried_checked"):
+            labels.append("backward_on_carried_graph_inside_no_autodiff")
         nt = (stt["depth"] >= 2 and len(stt["managers"]) >= 2) or d.stats["exceptions_crossing"] > 0 or d.stats["reentrant"] > 0
         rec.note(skeleton(case["tree"]), nt, labels, sample={"tree": case["tree"]})
     reset_mygrad()
